@@ -53,8 +53,11 @@ def build_fixed(rng, *, nsectors: int, legacy: bool = False, tag: int = 1, kind:
 
 def build_dynamic(rng, *, block_size: int, nblocks: int, tail_cut_sectors: int = 0, states=None,
                   placement: str = "shuffle", tag: int = 1, kind: int = 0, bitmaps: str = "ones",
-                  header_off: int = 512, table_gap: int = 0, extra_entries: int = 0, far_sector: int = 0, orig_size=None, uid: bytes | None = None):
-    """states[i] in {'A','U'}; bitmaps in ones|random|zeros (data under 0 bits is stored as zeros)."""
+                  header_off: int = 512, table_gap: int = 0, extra_entries: int = 0, far_sector: int = 0, orig_size=None, uid: bytes | None = None,
+                  table_place: str = "front"):
+    """states[i] in {'A','U'}; bitmaps in ones|random|zeros (data under 0 bits is stored as zeros).
+    table_place: front (header, BAT, blocks), behind (header, blocks, BAT) or middle (BAT between the blocks): all
+    offsets in the format are absolute, the table may sit anywhere."""
     spb = block_size // SECTOR
     size = nblocks * block_size - tail_cut_sectors * SECTOR
     layer = Layer(size, spb, tag, kind, default=T)
@@ -67,6 +70,8 @@ def build_dynamic(rng, *, block_size: int, nblocks: int, tail_cut_sectors: int =
     table_off = header_off + 1024 + table_gap * SECTOR
     bat_len = 4 * max_entries
     data_start = -(-(table_off + bat_len) // SECTOR)  # in sectors
+    if table_place != "front":
+        data_start = -(-(header_off + 1024) // SECTOR) + table_gap
     alloc = [i for i, s in enumerate(states) if s == "A"]
     order = list(alloc)
     if placement == "shuffle":
@@ -87,7 +92,11 @@ def build_dynamic(rng, *, block_size: int, nblocks: int, tail_cut_sectors: int =
     pos = {}
     cursor = data_start
     far_cursor = far_sector
-    for i in order:
+    table_slot = len(order) // 2 if table_place == "middle" else (len(order) if table_place == "behind" else -1)
+    for n_, i in enumerate(order):
+        if n_ == table_slot:
+            table_off = cursor * SECTOR
+            cursor += -(-bat_len // SECTOR) + table_gap
         if far_sector and rng.random() < 0.5:
             pos[i] = far_cursor
             far_cursor += bm_sectors + spb + rng.randrange(0, 3)
@@ -96,6 +105,9 @@ def build_dynamic(rng, *, block_size: int, nblocks: int, tail_cut_sectors: int =
             cursor += rng.randrange(1, 5)
         pos[i] = cursor
         cursor += bm_sectors + spb
+    if table_slot == len(order):
+        table_off = cursor * SECTOR
+        cursor += -(-bat_len // SECTOR)
     if far_sector and pos:
         # make sure the very last usable sector offset is exercised too
         top = 0xFFFFFFFE - (bm_sectors + spb)
